@@ -51,6 +51,10 @@ impl RocksDBTransaction {
 
     /// Commit the transaction.
     pub fn commit(&self) -> Result<()> {
+        #[cfg(feature = "verif-hooks")]
+        crate::verif_hooks::point("txn-commit:before");
+        #[cfg(feature = "verif-hooks")]
+        let _verif_after = crate::verif_hooks::After("txn-commit:after");
         self.inner.commit().map_err(internal_error)
     }
 
